@@ -280,6 +280,26 @@ def m_int_try_from(ex, st, callee, args, dest_ty):
     yield st, En("Result", z3.If(okc, z3.IntVal(0), z3.IntVal(1)), {"Ok": (Sc(v.e, T),), "Err": (Opaque("TryFromIntError"),)})
 
 
+def m_or_else(ex, st, callee, args, dest_ty):
+    v, f = args
+    good, goodidx = ("Some", 1) if ("Some" in v.alts or "None" in v.alts) else ("Ok", 0)
+    if good in v.alts:
+        for st2 in ex.branch(st, v.disc == goodidx):
+            yield st2, En(v.ty, z3.IntVal(goodidx), {good: v.alts[good]})
+    for st2 in ex.branch(st, v.disc != goodidx):
+        yield from call_fn_value(ex, st2, f, [] if good == "Some" else [v.alts["Err"][0]])
+
+
+def m_and_then(ex, st, callee, args, dest_ty):
+    v, f = args
+    good, goodidx, bad = ("Some", 1, "None") if ("Some" in v.alts or "None" in v.alts) else ("Ok", 0, "Err")
+    for st2 in ex.branch(st, v.disc != goodidx):
+        yield st2, En(v.ty, v.disc, {bad: v.alts.get(bad, ())})
+    if good in v.alts:
+        for st2 in ex.branch(st, v.disc == goodidx):
+            yield from call_fn_value(ex, st2, f, [v.alts[good][0]])
+
+
 def m_fn_call(ex, st, callee, args, dest_ty):
     """<F as Fn/FnMut/FnOnce<Args>>::call*(f, (args,))"""
     f = args[0]
@@ -858,6 +878,8 @@ BASE_MODELS = [
     (R(r"^Option::<.*>::ok_or::<.*>$"), m_ok_or),
     (R(r"^(Option|Result)::<.*>::map::<.*>$"), m_opt_map),
     (R(r"^(Option|Result)::<.*>::map_or::<.*>$"), m_map_or),
+    (R(r"^(Option|Result)::<.*>::or_else::<.*>$"), m_or_else),
+    (R(r"^(Option|Result)::<.*>::and_then::<.*>$"), m_and_then),
     (R(r"^<(i|u)(\d+|size) as TryFrom<(i|u)(\d+|size)>>::try_from$"), m_int_try_from),
     (R(r" as Fn(Mut|Once)?<.*>>::call(_mut|_once)?$"), m_fn_call),
     (R(r"^core::num::<impl i\d+>::abs$|^core::num::<impl isize>::abs$"), m_int_abs),
